@@ -10,6 +10,9 @@
       (src/progress_bar.rs:739-772) in an environment given by labels; the
       time-out of wait_timeout_while is a label argument (an oracle).
     Part 4: checkers used by the correspondence shards of harness/src/bin/c08.rs.
+    Part 5: structured programs [cprog] (what the translator emits as all_programs), their path
+      semantics [paths], the linearisation [linear], the executable check [check]/[prog_ordered],
+      thread pools given by paths of table programs [WFp]; erasure of a lock class.
 
     Lock sites (file:line of /repo/src) are listed in docs/C08.md. *)
 From IndModel Require Export Base.
@@ -101,8 +104,11 @@ Definition mark (t : thread) : thread := {| started := true; held := held t; cod
 Definition start (u : nat) (ths : list thread) : list thread :=
   match nth_error ths u with Some tu => set_nth u (mark tu) ths | None => ths end.
 
-(** thread [i] executes its next action, if it has one that is enabled *)
-Definition step (s : state) (i : nat) : option state :=
+(** thread [i] executes its next action, if it has one that is enabled.  The enabledness test is a
+    parameter: [step] uses [enabled] (every lock exclusive: the LEAST permissive semantics); any
+    [en] with [enabled s a = true -> en s i a = true] (a free lock can always be taken) describes a
+    more permissive lock implementation, e.g. an RwLock whose readers share (LocksProofs.no_deadlock_g). *)
+Definition gstep (en : state -> nat -> action -> bool) (s : state) (i : nat) : option state :=
   match nth_error (threads s) i with
   | None => None
   | Some t =>
@@ -110,7 +116,7 @@ Definition step (s : state) (i : nat) : option state :=
         match code t with
         | [] => None
         | a :: p =>
-            if enabled s a then
+            if en s i a then
               let ths1 := set_nth i {| started := true; held := local a (held t); code := p |} (threads s) in
               Some {| threads := match a with Spawn _ u => start u ths1 | _ => ths1 end;
                       jslot := match a with Spawn sl u => (sl, u) :: jslot s | _ => jslot s end;
@@ -118,6 +124,23 @@ Definition step (s : state) (i : nat) : option state :=
             else None
         end
       else None
+  end.
+Definition en_excl (s : state) (i : nat) (a : action) : bool := enabled s a.
+Definition step (s : state) (i : nat) : option state := gstep en_excl s i.
+
+Inductive greachable (en : state -> nat -> action -> bool) (s0 : state) : state -> Prop :=
+| greach_refl : greachable en s0 s0
+| greach_step : forall s i s', greachable en s0 s -> gstep en s i = Some s' -> greachable en s0 s'.
+
+(** shared readers: threads in [reader] take [Multi m] in read mode and may share it with each other *)
+Definition en_shared (reader : nat -> bool) (s : state) (i : nat) (a : action) : bool :=
+  match a with
+  | Acq (Multi m) =>
+      enabled s a ||
+      (reader i &&
+       forallb (fun jt : nat * thread => negb (holds (snd jt) (Multi m)) || reader (fst jt))
+               (combine (seq 0 (length (threads s))) (threads s)))
+  | _ => enabled s a
   end.
 
 Definition init (ths : list thread) : state := {| threads := ths; jslot := []; stopped := [] |}.
@@ -570,3 +593,156 @@ Definition c08_check (tbl : list (String.string * list caction)) (body : list ca
   | CManualTick installed n before after =>
       N.eqb (Nat.iter n (tick_inner (negb installed)) before) after
   end.
+
+(* ------------------------------------------------------------------ Part 5 *)
+(** Structured programs: what tools/locks_extract.py emits as [all_programs] - the control flow of
+    each Rust method body, callees inlined.
+      PBranch: if / else, match arms, if-let (no else: [body; skip]), the closure of Option::map
+               ([body; skip]), "last reference?" of an Arc drop ([Drop impl; skip]);
+      PLoop:   for / while / loop - any number of iterations; the exit test of a `while [let]` is the
+               first thing of the body, followed by [PBranch [leave; rest of the body]];
+      PExit c: an early exit (return / break / continue / `?`): the translator has CUT the
+               continuation at that point (the statements after it are only in the alternatives that
+               do not leave) and [c] is what dies on the way out (guards, owned values).  For the
+               path semantics [PExit c] is just [c]; [linear] skips it, so that [linear] of a
+               program is the flat footprint of [all_footprints]. *)
+Inductive cprog :=
+| PAct (a : caction)
+| PSeq (l : list cprog)
+| PBranch (alts : list cprog)
+| PLoop (body : cprog)
+| PExit (cleanup : cprog).
+
+(** the action sequences of all executions (loops unrolled any number of times) *)
+Inductive paths : cprog -> list caction -> Prop :=
+| pa_act : forall a, paths (PAct a) [a]
+| pa_seq : forall l trs, Forall2 paths l trs -> paths (PSeq l) (concat trs)
+| pa_branch : forall alts p tr, In p alts -> paths p tr -> paths (PBranch alts) tr
+| pa_loop : forall b trs, Forall (paths b) trs -> paths (PLoop b) (concat trs)
+| pa_exit : forall c tr, paths c tr -> paths (PExit c) tr.
+
+(** textual order: every alternative once, every loop body once, early-exit clean-ups skipped *)
+Fixpoint linear (p : cprog) : list caction :=
+  match p with
+  | PAct a => [a]
+  | PSeq l => (fix go (l : list cprog) := match l with [] => [] | q :: r => linear q ++ go r end) l
+  | PBranch l => (fix go (l : list cprog) := match l with [] => [] | q :: r => linear q ++ go r end) l
+  | PLoop b => linear b
+  | PExit _ => []
+  end.
+
+(** every action that occurs anywhere in the program *)
+Fixpoint pactions (p : cprog) : list caction :=
+  match p with
+  | PAct a => [a]
+  | PSeq l => (fix go (l : list cprog) := match l with [] => [] | q :: r => pactions q ++ go r end) l
+  | PBranch l => (fix go (l : list cprog) := match l with [] => [] | q :: r => pactions q ++ go r end) l
+  | PLoop b => pactions b
+  | PExit c => pactions c
+  end.
+
+(** one action on a held list; None = the discipline is violated (same tests as [cordered_from]) *)
+Definition cstep (a : caction) (h : list cres) : option (list cres) :=
+  match a with
+  | CAcq r => if forallb (fun x => crank x <? crank r) h then Some (r :: h) else None
+  | CRel r => if existsb (cres_eqb r) h then Some (cremove1 r h) else None
+  | CWaitRel r => match h with
+                  | [x] => if cres_eqb x r then Some [] else None
+                  | _ => None
+                  end
+  | CJoin => if forallb (fun x => crank x <? join_rank) h then Some h else None
+  | _ => Some h
+  end.
+Fixpoint crun (h : list cres) (tr : list caction) : option (list cres) :=
+  match tr with
+  | [] => Some h
+  | a :: q => match cstep a h with Some h' => crun h' q | None => None end
+  end.
+
+(** sets of possible held lists *)
+Definition hl_eqb (x y : list cres) : bool := list_eqb cres_eqb x y.
+Definition hmem (h : list cres) (hs : list (list cres)) : bool := existsb (hl_eqb h) hs.
+Fixpoint hdedup (hs : list (list cres)) : list (list cres) :=
+  match hs with
+  | [] => []
+  | x :: r => if hmem x r then hdedup r else x :: hdedup r
+  end.
+Fixpoint step_all (a : caction) (hs : list (list cres)) : option (list (list cres)) :=
+  match hs with
+  | [] => Some []
+  | h :: r => match cstep a h, step_all a r with
+              | Some h', Some o => Some (h' :: o)
+              | _, _ => None
+              end
+  end.
+
+(** The executable check (abstract interpretation with the SET of possible held lists at every
+    program point): [check p hs] = the set after [p] when started in any list of [hs]; None as soon
+    as some path can violate the discipline.  A loop needs its entry set to be invariant: every
+    held list the body can end with must already be in the entry set. *)
+Fixpoint check (p : cprog) (hs : list (list cres)) {struct p} : option (list (list cres)) :=
+  match p with
+  | PAct a => option_map hdedup (step_all a hs)
+  | PSeq l =>
+      (fix go (l : list cprog) (hs : list (list cres)) : option (list (list cres)) :=
+         match l with
+         | [] => Some hs
+         | q :: r => match check q hs with Some hs' => go r hs' | None => None end
+         end) l hs
+  | PBranch alts =>
+      option_map hdedup
+        ((fix go (l : list cprog) : option (list (list cres)) :=
+            match l with
+            | [] => Some []
+            | q :: r => match check q hs, go r with
+                        | Some a, Some b => Some (a ++ b)
+                        | _, _ => None
+                        end
+            end) alts)
+  | PLoop b =>
+      match check b hs with
+      | Some hs' => if forallb (fun h => hmem h hs) hs' then Some hs else None
+      | None => None
+      end
+  | PExit c => check c hs
+  end.
+
+(** every path is Ordered: starts holding nothing, never violates the discipline, ends holding nothing *)
+Definition prog_ordered (p : cprog) : bool :=
+  match check p [[]] with
+  | Some outs => forallb (fun h => match h with [] => true | _ => false end) outs
+  | None => false
+  end.
+(** every action of the program is allowed in a thread that is spawned and joined *)
+Definition prog_worker (p : cprog) : bool :=
+  forallb (fun a => match a with
+                    | CAcq r => join_rank <=? crank r
+                    | CJoin | CSpawn => false
+                    | _ => true
+                    end) (pactions p).
+
+(** programs of threads given as paths of table programs: a list of segments
+    (program, instance ids, path) *)
+Definition seg : Type := (cprog * (nat * nat * nat) * list caction)%type.
+Definition seg_code (sg : seg) : list action :=
+  match sg with (_, (b, m, k), tr) => map (inst b m k) tr end.
+Definition seg_ok (tbl : list (String.string * cprog)) (sg : seg) : Prop :=
+  match sg with (p, _, tr) => (exists name, In (name, p) tbl) /\ paths p tr end.
+Definition path_code (tbl : list (String.string * cprog)) (c : list action) : Prop :=
+  exists segs : list seg, c = concat (map seg_code segs) /\ Forall (seg_ok tbl) segs.
+Definition WFp (tbl : list (String.string * cprog)) (ths : list thread) : Prop :=
+  Forall (fun t => held t = [] /\ path_code tbl (code t)) ths /\
+  Forall (fun t => spawns_ok ths (code t)) ths.
+
+(** erasing every action on one lock class (a bar that is not a MultiProgress member never takes
+    [CMulti]; a bar without ticker never takes [CStop]; ...) *)
+Fixpoint cerase (c : cres) (tr : list caction) : list caction :=
+  match tr with
+  | [] => []
+  | a :: q =>
+      match a with
+      | CAcq r | CRel r | CWaitRel r => if cres_eqb r c then cerase c q else a :: cerase c q
+      | _ => a :: cerase c q
+      end
+  end.
+Definition hfilter (c : cres) (h : list cres) : list cres := filter (fun x => negb (cres_eqb x c)) h.
